@@ -75,6 +75,10 @@ CHECKS["C12"]=dict(cat="fault_enumeration", engine="faultfs", design="DESIGN.md 
    technique="exhaustive crash-point and I/O-error enumeration on the real write path: the file-system calls of each write history (ArchiveBuilder::build V1..V4 x destination present/absent x payload; MutableArchive::compact) are recorded with strace, then the history is re-run once per (system call, k) with the process killed before the k-th call (strace inject signal=KILL) and with the k-th call failing with ENOSPC/EIO/EACCES, plus short-write caps via an LD_PRELOAD shim; after every run the destination is compared with its previous bytes and with the expected complete archive",
    text="Every file-system call that touches the destination directory in every recorded history is a crash point and an error-injection point (1405 faulted runs in thorough); the destination must be byte-identical to its previous content (or absent) or open and read back every expected file; a build that returned Err must have left the previous state. Two fault-free recordings must issue the same call sequence.",
    note="Trusted: strace as injector/observer, kernel rename atomicity. Process death and I/O errors only (no power-loss block reordering: the code issues no fsync before rename). Temp litter tolerated and counted.")
+CHECKS["C05"]=dict(cat="exploration", engine="xplore", design="DESIGN.md §3 C05",
+   technique="deviation-bounded exhaustive enumeration over 124 valid seed files of all ten formats: every prefix length (strided above 4 KiB), every located 32-bit size/offset/count/flag field x 10 boundary values (incl. plaintext fields inside the encrypted MPQ tables, re-encrypted), chunk delete/duplicate/swap, and in thorough all pairs of header-level sites; each deviated input is fed to every public parse/open/list/read entry point in a forked child under a counting allocator with a hard cap, an alarm and signal handlers",
+   text="Every 0- and 1-deviation input of the stated alphabet (147 k cases quick, 2.6 M thorough incl. 2-deviation pairs) is run through every public entry point of the MPQ, M2/skin/anim, ADT, WMO, BLP, DBC, WDT and WDL crates; monitors: no panic (overflow checks on), no abort/signal, no watchdog expiry, no single request or peak heap above 256 MiB + 4096 x input length.",
+   note="Trusted: the forked-child sandbox and counting allocator (vcore::alloc); the independent chunk/structure maps used to locate fields. Allocation threshold sits above everything the library's documented limits allow.")
 PENDING={}
 CHECKS["C19"]=dict(cat="model_checking", engine="histbfs", design="DESIGN.md §3 C19",
    technique="(threads) stateless exploration under loom: storm-ffi compiled with hook H1 so its Mutex/LazyLock/thread_local are loom's; 21 scenarios of 2-3 threads x 1-2 C-API calls on shared handles, all interleavings up to preemption bound 2/3, linearizability by differential against every sequential merge of the same calls; (sequential) explicit-state BFS over C-API call histories in forked children against a handle/cursor model and the Rust API",
